@@ -598,8 +598,8 @@ func fullTable(c0 uint16) (code int64, what string) {
 	cli := qnet.NewRpcClient(context.Background(), 4)
 	cli.VerifSetCounter(c0)
 	seen := make(map[uint16]int, 65536)
-	completions := make([]int32, 65540)
-	codesSeen := make([]int32, 65540)
+	completions := make([]int32, 65550)
+	codesSeen := make([]int32, 65550)
 	cb := func(i int) qnet.RpcHandler {
 		return func(msg proto.Message, code int32) error {
 			completions[i]++
@@ -640,6 +640,7 @@ func fullTable(c0 uint16) (code int64, what string) {
 	// free one number: the next call gets exactly that one
 	victim := uint16(1 + (uint32(c0)*40503+12345)%65535)
 	reply, _ := proto.Marshal(wrapperspb.String("r1"))
+	victimCall := seen[victim]
 	if err := cli.Dispatch(packet.New(msgID, victim, fatchoy.PFlagRpc, reply)); err != nil || completions[seen[victim]] != 1 {
 		return 6, "response to an outstanding call in a full table not delivered"
 	}
@@ -653,9 +654,27 @@ func fullTable(c0 uint16) (code int64, what string) {
 	default:
 		return 8, "a free sequence number exists, yet the call was refused"
 	}
+	// the table is full again; now free the number the counter stands on: it is the LAST one the
+	// search reaches (the 65535th probe)
+	seen[victim] = 65536
+	last := cli.VerifCounter()
+	if err := cli.Dispatch(packet.New(msgID, last, fatchoy.PFlagRpc, reply)); err != nil || completions[seen[last]] != 1 {
+		return 6, "response to an outstanding call in a full table not delivered"
+	}
+	cli.AsyncCall(node, wrapperspb.String("q"), cb(65537))
+	checked++
+	select {
+	case p := <-cli.PendingQueue():
+		if p.Seq() != last {
+			return 7, "the only free sequence number was not chosen"
+		}
+	default:
+		return 10, "the only free sequence number is the 65535th probe, yet the call was refused"
+	}
+	answered := map[int]bool{seen[victim]: false, seen[last]: true}
 	for i := 0; i < 65535; i++ {
 		want := int32(0)
-		if i == seen[victim] {
+		if i == victimCall || answered[i] {
 			want = 1
 		}
 		if completions[i] != want {
